@@ -1,0 +1,36 @@
+//go:build verif
+
+// Copyright 2023 StreamNative, Inc.
+//
+// Licensed under the Apache License, Version 2.0 (the "License");
+// you may not use this file except in compliance with the License.
+// You may obtain a copy of the License at
+//
+//     http://www.apache.org/licenses/LICENSE-2.0
+//
+// Unless required by applicable law or agreed to in writing, software
+// distributed under the License is distributed on an "AS IS" BASIS,
+// WITHOUT WARRANTIES OR CONDITIONS OF ANY KIND, either express or implied.
+// See the License for the specific language governing permissions and
+// limitations under the License.
+
+package server
+
+import "sync/atomic"
+
+// VerifYieldHook, when set, is called at the named yield points of the server package.
+var verifYieldHook atomic.Pointer[func(point string)]
+
+func SetVerifYieldHook(f func(point string)) {
+	if f == nil {
+		verifYieldHook.Store(nil)
+		return
+	}
+	verifYieldHook.Store(&f)
+}
+
+func verifYield(point string) {
+	if f := verifYieldHook.Load(); f != nil {
+		(*f)(point)
+	}
+}
